@@ -1376,9 +1376,27 @@ func (g *Gen) runInline(fn *ssa.Function, binds []Val, args []Val, rt types.Type
 	g.inlineDepth++
 	g.cur.defers = nil
 	g.iterOrd = nil
+	prevOuter := g.outerLookup
 	restore := func() {
 		g.fn, g.fc, g.vals, g.order, g.blockEnd, g.loops, g.loopOrd, g.debugVals, g.params, g.inlineMode, g.rets, g.iterOrd = sv.fn, sv.fc, sv.vals, sv.order, sv.blockEnd, sv.loops, sv.loopOrd, sv.debugVals, sv.params, sv.inline, sv.rets, sv.iterOrd
 		g.inlineDepth--
+		g.outerLookup = prevOuter
+	}
+	// names of the enclosing function that the closure does not capture (for callsite clauses)
+	g.outerLookup = func(name string, st *State) (Val, bool) {
+		cfn, cvals, cdbg, cpar, cpos := g.fn, g.vals, g.debugVals, g.params, g.lookupPos
+		g.fn, g.vals, g.debugVals, g.params, g.lookupPos = sv.fn, sv.vals, sv.debugVals, sv.params, pos
+		defer func() { g.fn, g.vals, g.debugVals, g.params, g.lookupPos = cfn, cvals, cdbg, cpar, cpos }()
+		if v, ok := g.lookupVar(name, nil, -1, st); ok {
+			return v, true
+		}
+		if v, ok := sv.params[name]; ok {
+			return v, true
+		}
+		if prevOuter != nil {
+			return prevOuter(name, st)
+		}
+		return Val{}, false
 	}
 	if err := g.analyzeCFG(); err != nil {
 		restore()
@@ -1393,10 +1411,14 @@ func (g *Gen) runInline(fn *ssa.Function, binds []Val, args []Val, rt types.Type
 			g.params[p.Name()] = args[i]
 		}
 	}
+	if g.freeVarNames == nil {
+		g.freeVarNames = map[string]bool{}
+	}
 	for i, fv := range fn.FreeVars {
 		if i < len(binds) {
 			g.vals[fv] = binds[i]
 			g.params[fv.Name()] = binds[i]
+			g.freeVarNames[fv.Name()] = true
 		}
 	}
 	// the callee's entry block continues from the current state
